@@ -225,7 +225,7 @@ func TestC18_PoolGrowth(t *testing.T) {
 	defer srv.StopAsync()
 	ident := rapid.StringMatching(`[a-zA-Z_][a-zA-Z0-9_]{0,9}`)
 	best, seq := 0, 0
-	ev.Rapid("poolgrowth", ev.Pick(8, 40))
+	ev.Rapid("poolgrowth", ev.Pick(5, 40))
 	rapid.Check(t, func(rt *rapid.T) {
 		seq++
 		g := growCase{
